@@ -220,6 +220,7 @@ def variants(root):
         V('argument binarised in place', 'break', C, 'A = binarize(A, copy=True)\n    n = len(A)\n    np.fill_diagonal(A, 1)', 'A = binarize(A, copy=False)\n    n = len(A)\n    np.fill_diagonal(A, 1)', 'A.', 'get_components', scope=S),
         V('neutral: isdisjoint sides', 'neutral', C, 'if not s.isdisjoint(item):', 'if not item.isdisjoint(s):', scope=S),
         V('neutral: union via operator', 'neutral', C, 'item = s.union(item)', 'item = item | s', scope=S),
+        V('neutral: working copy of the loop variable', 'neutral', C, '    for item in edge_map:\n        temp = []\n', '    for edge in edge_map:\n        item = edge\n        temp = []\n', scope=S),
         V('neutral: branches swapped', 'neutral', C, '            if not s.isdisjoint(item):\n                item = s.union(item)\n            else:\n                temp.append(s)\n',
           '            if s.isdisjoint(item):\n                temp.append(s)\n            else:\n                item = s.union(item)\n', scope=S),
     ]
